@@ -20,7 +20,7 @@ ALL = ["C%02d" % i for i in range(1, 21)]
 
 
 def sh(cmd, **kw):
-    return subprocess.run(cmd, shell=isinstance(cmd, str), capture_output=True, text=True, **kw)
+    return subprocess.run(cmd, shell=isinstance(cmd, str), capture_output=True, text=True, errors="replace", **kw)
 
 
 def fixed_entries():
